@@ -133,14 +133,15 @@ AllGroups == {
   G("q-random",      AllDoc, {}, {"Save"}, {"newdir", "existing", "device", "resave"}, "sweep", 60, 32, 8, 2),
   \* thorough tier
   G("t-sweep-all",   SmallDoc, {}, {"Save"}, Reg, "sweep", 0, 0, 1, 1),
-  G("t-sweep-large", LargeDoc, {}, {"Save"}, Reg, "sweep", 600, 256, 2, 1),
+  G("t-sweep-large", LargeDoc \ {"hugeimage"}, {}, {"Save"}, Reg, "sweep", 600, 256, 2, 1),
+  G("t-sweep-huge",  {"hugeimage", "bigimage"}, {}, {"Save"}, Reg, "sweep", 300, 128, 2, 1),
   G("t-targets",     AllDoc, {}, {"Save"}, Targets, "none", 0, 0, 2, 1),
   G("t-md-targets",  {}, AllMd, {"ConvertFile", "BatchConvert"}, Targets, "none", 0, 0, 2, 1),
   G("t-md-sweep",    {}, {"mdtable", "mdlong"}, {"ConvertFile", "BatchConvert"}, {"newdir"}, "sweep", 0, 0, 1, 1),
   G("t-resave",      {"para", "image", "header", "title", "style", "margins"}, {}, {"Save"}, {"newdir", "existing", "device", "resave"}, "none", 0, 0, 3, 3),
   G("t-odd-sweep",   {"openodd"}, {}, {"Save"}, Reg, "sweep", 400, 128, 2, 1),
   G("t-spelt-sweep", {"para", "midimage"}, {}, {"Save"}, PathForms, "sweep", 60, 16, 1, 1),
-  GC("t-conc",       {"para", "table", "image", "openmin", "openrich", "openodd", "longtext", "midimage"}, Reg \cup {"resave", "vialink"}, 40, {1, 2, 3, 7}, 2),
+  GC("t-conc",       {"para", "table", "image", "openmin", "openrich", "openodd", "longtext", "midimage"}, Reg \cup {"resave", "vialink"}, 40, {1, 2, 3, 7}, 1),
   G("t-opened",      {"openmin", "openrich", "openodd", "heading", "para", "style", "list", "footnote", "header", "title"}, {}, {"Save"}, {"newdir", "existing", "device", "resave"}, "none", 0, 0, 3, 2),
   G("t-random",      AllDoc, {}, {"Save"}, {"newdir", "existing", "device", "resave"}, "sweep", 400, 128, 8, 3)}
 Groups == {x \in AllGroups : x.g \in GroupNames}
